@@ -19,7 +19,7 @@ MC_INV = {
 T_MON = {
     "C03": ["M_ReadIsSnapshot", "M_MoreFlag", "M_CountIsSnapshot", "M_StreamIsSnapshot", "M_ReadableServed", "M_HeaderCoversData", "M_ReadStable"],
     "C08": ["M_FloorMonotone", "M_FloorAccepted", "M_BelowFloorRefused", "M_CompactClampCommitted"],
-    "C13": ["M_ReadIsSnapshot", "M_CountIsSnapshot", "M_StreamIsSnapshot", "M_StreamOneTerminator", "M_StreamBatchRevision"],
+    "C13": ["M_ReadIsSnapshot", "M_CountIsSnapshot", "M_StreamIsSnapshot", "M_StreamOneTerminator", "M_StreamBatchRevision", "M_PartitionsTileInterval", "M_BulkStreamExactlyOnce"],
     "C12": ["M_EnginesAgree"],
 }
 KNOWN_MON = {"C03": ["M_TombValueReadable"]}
@@ -163,7 +163,8 @@ def check_seq(prop, tier, seed):
             fl = flags if prop != "C13" else ["-seed", str(seed), "-sets", "30" if quick else "120"]
             if title.startswith("1 key"):
                 fl = ["-seed", str(seed), "-frac", "0.05", "-finalfrac", "1.0"]
-            rep, traces, agrees = seqrun(work, binp, behs, engines, 16, fl,
+            eng = engines + (",tikv-regions" if prop == "C13" else "")   # C13: also the TiKV adapter's own partition answer, from real regions
+            rep, traces, agrees = seqrun(work, binp, behs, eng, 16, fl,
                                          agree=(prop == "C12"), cmd=PROP_CMD.get(prop, "seqrun"), name="seqrun_" + title.split(",")[0].replace(" ", "_"))
             cov["evaluations"] += rep.get("behaviours", 0)
             cov["distinct_nontrivial"] += rep.get("nontrivial", 0)
@@ -182,6 +183,16 @@ def check_seq(prop, tier, seed):
             # "... and returns the same answer whenever it is asked again": reads answered while writes are in flight
             # (reader processes of the concurrent model), judged when answered and again when everything has settled
             alltraces += fam_write.reader_part(work, binp, cov, quick, seed)
+        if prop == "C13":
+            # the same property at a scale the bounded histories do not reach (the scanner streams in batches of 300)
+            d = work.sub("streambulk")
+            tr = os.path.join(d, "streambulk.ndjson"); rp = os.path.join(d, "streambulk.json")
+            rc, out = run([binp, "streambulk", "-out", tr, "-report", rp, "-engine", "memkv,badger,tikv-regions"], env=GOENV, timeout=900)
+            if rc != 0 or not os.path.exists(rp):
+                raise Undecided("streambulk failed (rc=%s): %s" % (rc, (out or "")[-800:]))
+            alltraces.append(tr)
+            cov["replay"].append(dict(what="40 / 400 / 1500 keys, a partition border between two versions of one key, streamed as a whole and per advertised partition",
+                                      runs=json.load(open(rp)).get("behaviours", 0), engines="memkv,badger,tikv-regions"))
         # ---- 3. verdicts from trace validation
         if prop == "C12":
             ntr, v = validate_all(work, allagree, T_MON[prop], module="TraceAgree.tla")
